@@ -18,6 +18,31 @@ Theorem C11_header_complete : forall v t, virt_of sha256 v t -> wf_ord t = true 
 Proof. exact (header_complete sha256 sha256_len sha256_ok). Qed.
 Print Assumptions C11_header_complete.
 
+(* COMPLETE, for EVERY tree: the original may contain exotic cells of all types, in particular Merkle proof
+   and Merkle update cells (nested proofs).  [virt_gen sha256 j v t] (Spec/MerkleProof.v): v is t with
+   level-0 subtrees replaced by pruned branches, a subtree below j Merkle cells of the original by the branch
+   of mask 2^j.  t is any constructible tree (wf_exotic, depth_okb) of level 0; the proof cell adds one level
+   of depth, hence 1022. *)
+Theorem C11_complete_nested : forall v t,
+  wf_exotic t = true -> depth_okb sha256 t = true -> s_mask t = 0 -> s_depth_at sha256 t 0 <= 1022 ->
+  virt_gen sha256 0 v t ->
+  exists k, build sha256 (s_mproof v (s_hash_at sha256 t 0) (s_depth_at sha256 t 0)) = Ok k /\
+            check_proof k (s_hash_at sha256 t 0) = Ok tt.
+Proof. exact (proof_complete_nested sha256 sha256_len sha256_ok). Qed.
+Print Assumptions C11_complete_nested.
+
+(* the block-header check takes the virtualised tree itself: no extra level, and any root level *)
+Theorem C11_header_complete_nested : forall v t,
+  wf_exotic t = true -> depth_okb sha256 t = true -> virt_gen sha256 0 v t ->
+  exists k, build sha256 v = Ok k /\ check_block_header_proof k (s_hash_at sha256 t 0) false = Ok None.
+Proof. exact (header_complete_nested sha256 sha256_len sha256_ok). Qed.
+Print Assumptions C11_header_complete_nested.
+
+(* the relation for ordinary trees is the instance j = 0 of the general one *)
+Theorem C11_virt_of_gen : forall t v, virt_of sha256 v t -> wf_ord t = true -> virt_gen sha256 0 v t.
+Proof. exact (virt_of_gen sha256). Qed.
+Print Assumptions C11_virt_of_gen.
+
 (* what acceptance means: a Merkle-proof cell whose stored hash and whose child's level-0 hash are the
    expected hash; in particular it is never accepted against two different hashes, and a cell that is not a
    Merkle proof is never accepted *)
@@ -40,6 +65,24 @@ Theorem C11_sound : forall v t, wf_virtual v = true -> wf_ord t = true ->
   s_hash_at sha256 v 0 = s_hash sha256 t -> covers sha256 v t \/ collision sha256.
 Proof. exact (virtual_sound sha256 sha256_len sha256_ok). Qed.
 Print Assumptions C11_sound.
+
+(* SOUND, for every tree: v and t are any well-formed trees of any cell types (t may contain Merkle proofs /
+   updates and pruned branches of its own).  If their level-0 hashes agree then node by node v is t - same
+   type, same data - down to pruned branches, and j Merkle cells deep a pruned branch has the level-j hash of
+   what stands opposite it (covers_gen, Spec/MerkleProof.v); or a SHA-256 collision has been exhibited. *)
+Theorem C11_sound_nested : forall v j t, wf_exotic v = true -> wf_exotic t = true ->
+  s_hash_at sha256 v j = s_hash_at sha256 t j -> covers_gen sha256 j v t \/ collision sha256.
+Proof. exact (virtual_sound_nested sha256 sha256_len). Qed.
+Print Assumptions C11_sound_nested.
+
+(* end to end: a Merkle-proof cell over v that the library built and check_proof accepted against the
+   level-0 hash of t *)
+Theorem C11_accepted_sound_nested : forall bits v t k,
+  wf_exotic v = true -> depth_okb sha256 v = true -> wf_exotic t = true ->
+  build sha256 (Cell ty_mproof bits [v]) = Ok k -> check_proof k (s_hash_at sha256 t 0) = Ok tt ->
+  covers_gen sha256 0 v t \/ collision sha256.
+Proof. exact (accepted_sound_nested sha256 sha256_len). Qed.
+Print Assumptions C11_accepted_sound_nested.
 
 (* account-state check: acceptance means the claimed state's OWN hash is the committed one ... *)
 Theorem C11_account_means : forall bp sp sa claimed root_hash,
@@ -64,3 +107,43 @@ Example C11_example :
   | Err _ => False
   end.
 Proof. vm_compute. split; reflexivity. Qed.
+
+(* a nested proof: an ordinary root over [an inner Merkle proof cell over an ordinary subtree with two
+   leaves] and another ordinary child.  One leaf below the inner proof is pruned with mask 2 (s_prune 1), the
+   other root child with mask 1 (s_prune 0).  The hypotheses of C11_complete_nested hold and the built proof
+   is accepted; pruning the leaf below the inner proof with mask 1 instead is rejected. *)
+Example C11_example_nested :
+  let leaf1 := Cell (-1) [true; true] [] in
+  let leaf2 := Cell (-1) [false; true; false] [] in
+  let sub := Cell (-1) [true] [leaf1; leaf2] in
+  let inner x := s_mproof x (s_hash_at sha256 sub 0) (s_depth_at sha256 sub 0) in
+  let other := Cell (-1) [false; false] [leaf1] in
+  let t := Cell (-1) [false] [inner sub; other] in
+  let v := Cell (-1) [false] [inner (Cell (-1) [true] [s_prune sha256 1 leaf1; leaf2]); s_prune sha256 0 other] in
+  let v1 := Cell (-1) [false] [inner (Cell (-1) [true] [s_prune sha256 0 leaf1; leaf2]); s_prune sha256 0 other] in
+  let h := s_hash_at sha256 t 0 in
+  let d := s_depth_at sha256 t 0 in
+  (wf_exotic t = true /\ depth_okb sha256 t = true /\ s_mask t = 0 /\ d <= 1022) /\
+  virt_gen sha256 0 v t /\
+  match build sha256 (s_mproof v h d) with
+  | Ok k => check_proof k h = Ok tt /\ is_ok (check_proof k (s_hash_at sha256 sub 0)) = false
+  | Err _ => False
+  end /\
+  match build sha256 (s_mproof v1 h d) with
+  | Ok k => check_proof k h = Err EProof
+  | Err _ => False
+  end.
+Proof.
+  intros leaf1 leaf2 sub inner other t v v1 h d.
+  split; [|split].
+  - vm_compute. repeat split; try reflexivity. intro E; discriminate E.
+  - unfold v, t. apply VG_node. constructor; [|constructor; [|constructor]].
+    + change (virt_gen sha256 0 (inner (Cell (-1) [true] [s_prune sha256 1 leaf1; leaf2])) (inner sub)).
+      unfold inner, s_mproof, sub. apply VG_node. constructor; [|constructor].
+      change (virt_gen sha256 1 (Cell (-1) [true] [s_prune sha256 1 leaf1; leaf2]) (Cell (-1) [true] [leaf1; leaf2])).
+      apply VG_node. constructor; [|constructor; [|constructor]].
+      * change (virt_gen sha256 1 (s_prune sha256 1 leaf1) leaf1). apply VG_prune; [apply Nat.leb_le; reflexivity|reflexivity].
+      * apply VG_same.
+    + change (virt_gen sha256 0 (s_prune sha256 0 other) other). apply VG_prune; [apply Nat.leb_le; reflexivity|reflexivity].
+  - vm_compute. repeat split; reflexivity.
+Qed.
